@@ -316,6 +316,55 @@ fn write_commits(r: &mut Rng, h: &mut Hist, mut_repo: &mut jj_lib::repo::Mutable
     new
 }
 
+/// `(local sizes, file ids)` of the segment files of a readonly index, oldest first
+fn levels_of(repo: &ReadonlyRepo, file_ids: &mut HashMap<String, u64>) -> (Vec<u64>, Vec<u64>) {
+    let ro: &DefaultReadonlyIndex = repo.readonly_index().downcast_ref().unwrap();
+    let st = ro.stats();
+    let n = file_ids.len() as u64;
+    let mut next = n;
+    let ids = st.commit_levels.iter().map(|l| *file_ids.entry(l.name.clone()).or_insert_with(|| { next += 1; next })).collect();
+    (st.commit_levels.iter().map(|l| l.num_commits as u64).collect(), ids)
+}
+
+/// the squash rule: each saved stack keeps "a parent file has more than twice the commits of its child"
+fn squash_case(out: &mut Out, before: &(Vec<u64>, Vec<u64>), n_new: usize, after: &(Vec<u64>, Vec<u64>), what: &str) {
+    out.case(&format!("squash {} {n_new}", show_list(&before.0)), &show_list(&after.0));
+    out.tally("squash", if after.0.len() > before.0.len() { "stacked" } else if after.0.len() == before.0.len() && n_new == 0 { "nothing-new" } else { "squashed" });
+    if after.0.len() <= before.0.len() && n_new > 0 { out.nontrivial(("squash", &before.0, n_new)); }
+    let total_ok = before.0.iter().sum::<u64>() + n_new as u64 == after.0.iter().sum::<u64>();
+    // documented rule: a saved non-empty top segment has less than half the commits of its parent file
+    let k = after.0.len();
+    let log_ok = n_new == 0 || k < 2 || 2 * after.0[k - 1] < after.0[k - 2];
+    if total_ok && log_ok { out.oracle_ok(); }
+    else { out.oracle_fail("segments:squash-rule-violated", format!("{what}: {:?} + {n_new} → {:?}", before.0, after.0)); }
+}
+
+#[allow(clippy::too_many_arguments)]
+fn merge_case(out: &mut Out, h: &Hist, store: &Arc<Store>, base: &Arc<ReadonlyRepo>, base_members: &BTreeSet<usize>,
+              sides: &[(Arc<ReadonlyRepo>, BTreeSet<usize>)], merged: &Arc<ReadonlyRepo>, merged_members: &BTreeSet<usize>,
+              file_ids: &mut HashMap<String, u64>) {
+    // `merge_operations` starts from the first parent of the merge operation and merges the other one in
+    let parents = merged.operation().parent_ids().to_vec();
+    if parents.len() != 2 { return; }
+    let Some(own) = sides.iter().find(|(s, _)| *s.op_id() == parents[0]) else { return };
+    let Some(other) = sides.iter().find(|(s, _)| *s.op_id() == parents[1]) else { return };
+    let enc = |out: &mut Out, repo: &Arc<ReadonlyRepo>, members: &BTreeSet<usize>, file_ids: &mut HashMap<String, u64>| -> Option<(String, Pos, (Vec<u64>, Vec<u64>))> {
+        let pos = observe_positions(out, h, repo.index(), store, "merge-input", members)?;
+        let lv = levels_of(repo, file_ids);
+        Some((format!("{} {} {} {}", show_list(&lv.0), show_list(&lv.1), show_pos(&pos.at), pos.enc), pos, lv))
+    };
+    let (Some(a), Some(b), Some(c)) = (enc(out, &own.0, &own.1, file_ids), enc(out, base, base_members, file_ids), enc(out, &other.0, &other.1, file_ids)) else { return };
+    let Some(m) = observe_positions(out, h, merged.index(), store, "merge-result", merged_members) else { return };
+    out.case(&format!("merge {} {} {}", a.0, b.0, c.0), &format!("{}|{}", show_pos(&m.at), m.enc));
+    out.nontrivial(("merge", &a.0, &c.0));
+    // the merged index keeps the own side's positions and appends what only the other side has
+    let own_prefix = m.at.len() >= a.1.at.len() && m.at[..a.1.at.len()] == a.1.at[..];
+    if own_prefix { out.oracle_ok(); } else { out.oracle_fail("merge-in:own-positions-moved", format!("own {:?} merged {:?}", a.1.at, m.at)); }
+    let added = m.at.len() - a.1.at.len();
+    squash_case(out, &a.2, added, &levels_of(merged, file_ids), "merge");
+    out.tally("merge-common-base", if a.2.1.iter().any(|f| c.2.1.contains(f)) { "shared-file" } else { "no-shared-file" });
+}
+
 fn one_history(cfg: &Cfg, out: &mut Out, r: &mut Rng, hist_no: u64) {
     let test_repo = TestRepo::init();
     let settings = testutils::user_settings();
@@ -329,17 +378,20 @@ fn one_history(cfg: &Cfg, out: &mut Out, r: &mut Rng, hist_no: u64) {
     // first transaction larger, later ones smaller ⇒ segments stack instead of squashing
     let mut size = r.range(1, 16);
     let mut max_levels = 1;
+    let mut file_ids: HashMap<String, u64> = HashMap::new();
     let mut indexed: BTreeSet<usize> = [0].into_iter().collect();
     for round in 0..rounds {
         let visible: Vec<usize> = indexed.iter().copied().collect();
         let mut after = indexed.clone();
         let concurrent = if round > 0 && r.chance(1, 4) { r.range(2, 3) } else { 1 };
         let mut txs = vec![];
+        let mut tx_new: Vec<Vec<usize>> = vec![];
         for _ in 0..concurrent {
             let mut tx = repo.start_transaction();
             let cnt = if concurrent > 1 { r.range(1, size.max(1)) } else { size };
             let new = write_commits(r, &mut h, tx.repo_mut(), &visible, cnt, &change_pool, 5);
             after.extend(new.iter().copied());
+            tx_new.push(new.clone());
             if r.chance(1, 2) {
                 let mut in_tx = indexed.clone();
                 in_tx.extend(new.iter().copied());
@@ -347,12 +399,28 @@ fn one_history(cfg: &Cfg, out: &mut Out, r: &mut Rng, hist_no: u64) {
             }
             txs.push(tx);
         }
+        let before_levels = levels_of(&repo, &mut file_ids);
         if concurrent == 1 {
+            let n_new = after.len() - indexed.len();
             repo = txs.pop().unwrap().commit("t").block_on().unwrap();
+            // segment stack after `maybe_squash_with_ancestors` + `save_in`
+            squash_case(out, &before_levels, n_new, &levels_of(&repo, &mut file_ids), "commit");
         } else {
-            for tx in txs { tx.commit("concurrent").block_on().unwrap(); }
+            let base = repo.clone();
+            let mut sides: Vec<(Arc<ReadonlyRepo>, BTreeSet<usize>)> = vec![];
+            for (tx, new) in txs.into_iter().zip(tx_new.iter()) {
+                let n_new = new.len();
+                let side = tx.commit("concurrent").block_on().unwrap();
+                squash_case(out, &before_levels, n_new, &levels_of(&side, &mut file_ids), "commit");
+                let mut members = indexed.clone();
+                members.extend(new.iter().copied());
+                sides.push((side, members));
+            }
             repo = repo.reload_at_head().block_on().unwrap(); // merges the operations, merge_in on the index
             out.tally("merged-concurrent-ops", &concurrent.to_string());
+            if concurrent == 2 {
+                merge_case(out, &h, &store, &base, &indexed, &sides, &repo, &after, &mut file_ids);
+            }
         }
         indexed = after;
         let ro: &DefaultReadonlyIndex = repo.readonly_index().downcast_ref().unwrap();
